@@ -179,6 +179,32 @@ def run_model(exe, model_in, model_out, shards=8):
     return ok, errs
 
 
+def coq_string(s):
+    return '"' + s.replace('"', '""') + '"'
+
+
+def in_coq_sample(prop, cfg, work, pairs, k=24):
+    """Evaluate run_case on up to k (model input, implementation observation) pairs inside Coq."""
+    step = max(1, len(pairs) // k)
+    sample = pairs[::step][:k]
+    mod = cfg.get('run_module', 'Run' + prop)
+    vf = os.path.join(work, 'InCoq%s.v' % prop)
+    with open(vf, 'w') as f:
+        f.write('From Coq Require Import List. Import ListNotations.\n')
+        f.write('From UF Require Import Base.Lit Base.Bytes Run.%s.\n' % mod)
+        f.write('Definition cases : list (bytes * bytes) := [\n')
+        f.write(';\n'.join('  ($%s, $%s)' % (coq_string(a), coq_string(b)) for a, b in sample))
+        f.write('\n].\n')
+        f.write('Definition mismatches := Eval vm_compute in\n'
+                '  length (filter (fun c => negb (bytes_eqb (run_case (fst c)) (snd c))) cases).\n')
+        f.write('Print mismatches.\n')
+    with Lock('coq.lock'):
+        rc, out = sh(['coqc', '-Q', os.path.join(COQ, 'theories'), 'UF', '-w', '-notation-overridden', vf], cwd=work, timeout=1800)
+    m = re.search(r'mismatches\s*=\s*(\d+)', out)
+    res = {'n': len(sample), 'ok': rc == 0 and m is not None, 'mismatches': int(m.group(1)) if m else None, 'log': out[-2000:]}
+    return res
+
+
 def decode_case(line):
     """Human-readable rendering of a case line (hex fields decoded when printable)."""
     out = []
@@ -281,7 +307,7 @@ def main(argv):
 
     hname = cfg.get('harness', prop.lower())
     state = {'stats': {}, 'n_eval': 0, 'n_nt': 0, 'n_unsup': 0, 'distinct_nt': set(), 'samples': [],
-             'unsup_reasons': {}}
+             'unsup_reasons': {}, 'agree': []}
 
     def correspond(tier_used, tag):
         """Generate (or replay) cases, run the implementation and the model, compare.  Appends to
@@ -344,6 +370,7 @@ def main(argv):
             problems.append({'what': 'line count mismatch cases=%d go=%d model=%d' % (len(cl), len(gl), len(ml))})
             return
         known = load_known()
+        mi_lines = open(modelin).read().split('\n')
         for i, (c, g, m) in enumerate(zip(cl, gl, ml)):
             state['n_eval'] += 1
             nt, _, obs = g.partition('\t')
@@ -360,6 +387,8 @@ def main(argv):
                 state['distinct_nt'].add(hashlib.md5(c.encode()).digest())
             if len(state['samples']) < 3 and nt == '1' and (i % 7 == 0 or len(cl) < 30):
                 state['samples'].append({'case': decode_case(c), 'go': obs[:300], 'model': m[:300]})
+            if obs == m and nt == '1' and len(mi_lines[i]) < 20000:
+                state['agree'].append((mi_lines[i], obs))
             if obs != m:
                 f = match_finding(known, prop, c, obs, m)
                 if f is not None:
@@ -375,6 +404,15 @@ def main(argv):
         if problems and not violations and tier == 'quick' and not a.replay and not os.environ.get('VERIF_NO_ESCALATE'):
             searched = 'thorough generators'
             correspond('thorough', '-search')
+
+    # (c) a sample of the agreeing non-trivial cases is re-evaluated INSIDE Coq (vm_compute on Run/Run<prop>.run_case,
+    #     no extraction, no OCaml): the kernel-evaluated model must give the implementation's observation too
+    incoq = None
+    if okm and okh and not violations and state['agree'] and not os.environ.get('VERIF_NO_INCOQ'):
+        incoq = in_coq_sample(prop, cfg, work, state['agree'], k=cfg.get('incoq_k', 24))
+        if incoq.get('mismatches') or not incoq.get('ok'):
+            problems.append({'what': 'in-Coq evaluation of the model (vm_compute) does not reproduce the observations '
+                                     'the extracted model and the implementation agree on', 'log': incoq.get('log', '')[-2000:]})
 
     stats = state['stats']
     n_eval, n_nt, n_unsup = state['n_eval'], state['n_nt'], state['n_unsup']
@@ -431,6 +469,11 @@ def main(argv):
             'axioms_reported': axioms,
             'coqchk': coqchk if coqchk is not None else 'not run in this tier (thorough tier runs coqchk -o on the property file)',
             'escalated_search': searched,
+            'in_coq_evaluations': (incoq or {}).get('n', 0),
+            'traces_validated_against_impl': n_eval if cfg.get('traces') else 0,
+            'exhaustive': False,
+            'exhaustive_part': cfg.get('exhaustive_part', 'none: the correspondence run samples; the universal statement is the theorem'),
+            'in_coq_note': 'cases of this run re-evaluated by vm_compute inside Coq on the non-extracted model (Run/%s.run_case) and compared with the implementation' % cfg.get('run_module', 'Run' + prop),
             'evaluations': n_eval, 'distinct_nontrivial': len(distinct_nt),
             'nontrivial_total': n_nt,
             'rule': cfg.get('rule', ''),
